@@ -27,7 +27,7 @@ def gen_history(rng, n):
     for _ in range(n):
         muts, final = sigs.gen_sequence(rng, sig, 'vapp', rng.randint(1, 3),
                                         kinds=['AddField'] * 4 + ['ChangeField'] * 3 + ['DeleteField'] * 2 +
-                                        ['RenameField'])
+                                        ['RenameField', 'DeleteModel'])
         if final is None or not muts or dangling(final, set()):
             return None
         if any(m['t'] == 'ChangeField' and any(a in ('db_table', 'db_index', 'unique') for a, _ in m['attrs'])
@@ -38,6 +38,31 @@ def gen_history(rng, n):
         specs.append(spec)
         evos.append(muts)
         sig = final
+    return specs, evos
+
+
+def scripted_history():
+    """V0 (Alpha, Beta) -e1-> AddField -e2-> DeleteModel Beta -e3-> ChangeField: a model disappears in the
+    middle of the history"""
+    def fld(name, t, **attrs):
+        return {'name': name, 'type': t, 'attrs': attrs, 'related': None}
+
+    def mdl(name, fields):
+        return {'name': name, 'table': 'vapp_%s' % name.lower(), 'unique_together': [], 'index_together': [],
+                'indexes': [], 'constraints': [], 'fields': [fld('id', 'AutoField', primary_key=True)] + fields}
+    spec0 = {'apps': [{'id': 'vapp', 'models': [mdl('Alpha', [fld('a', 'IntegerField')]),
+                                                 mdl('Beta', [fld('b', 'CharField', max_length=10)])]}]}
+    evos = [[{'t': 'AddField', 'model': 'Alpha', 'field': 'c', 'ftype': 'IntegerField', 'initial': '3', 'attrs': []}],
+            [{'t': 'DeleteModel', 'model': 'Beta'}],
+            [{'t': 'ChangeField', 'model': 'Alpha', 'field': 'a', 'ftype': None, 'initial': None, 'attrs': [['null', 'true']]}]]
+    sig = dbrig.sig_from_models(dbrig.build_models(spec0))
+    specs = [spec0]
+    for e in evos:
+        r = sigs.real_simulate(sig, 'vapp', [sigs.real_mutation(m) for m in e])
+        sig = r[1]
+        sp = dbrig.spec_from_sig(sig)
+        sp['apps'] = [a for a in sp['apps'] if a['id'] == 'vapp']
+        specs.append(sp)
     return specs, evos
 
 
@@ -107,7 +132,11 @@ def run(ctx):
     while done < nh and tries < nh * 8 and ctx.time_left() > 40:
         tries += 1
         n = ctx.rng.randint(2, 3 if quick else 4)
-        h = gen_history(ctx.rng, n)
+        if tries == 1:
+            h = scripted_history()
+            n = 3
+        else:
+            h = gen_history(ctx.rng, n)
         if h is None:
             continue
         specs, evos = h
